@@ -17,7 +17,8 @@ RULE = ("stratified + seeded random (configuration, sample) pairs; non-trivial =
         "(so that products do not collapse to powers) or finite N with the null mean moving; distinct = hash of "
         "(kind, configuration, sample)")
 REQUIRED = [f"ref_compared:{nn.label({'test': a, 'estim': b, 'bet': c})}" for a, b, c in nn.COMBOS] + \
-           ["equiv_compared", "inverse_checked", "entries_eq", "entries_boundary", "stratum:nondyadic_boundary_neighbourhood", "stratum:early_wins_then_zeros_to_census", "stratum:long_sample"]
+           ["equiv_compared", "inverse_checked", "entries_eq", "entries_boundary", "stratum:nondyadic_boundary_neighbourhood", "stratum:early_wins_then_zeros_to_census", "stratum:long_sample",
+            "stratum:exact_hit_then_zero_then_nondyadic"]
 ASSUMPTIONS = ["eta_j and lambda_j are taken from the real estimator/bet (their ranges are C13's business)",
                "boundary-index conventions of DESIGN.md C12: at the index where the total first exceeds N t either the "
                "product value or 0 is accepted; where mu_j is within the code's tolerances of 0 or u either the product "
@@ -36,6 +37,13 @@ def run_shard(spec, rec):
     rng = random.Random(f"c12-{spec['seed']}-{spec['shard']}")
     for i in range(spec["n"]):
         r = i % 12
+        if r < 9 and i % 600 == r + 12:
+            cfg = nn.gen_cfg(rng, combo=nn.COMBOS[r], finite=True)
+            y = nn.gen_exact_hit_then_nondyadic(rng, cfg)
+            if y and nn.in_domain(cfg, y):
+                rec.count("stratum:exact_hit_then_zero_then_nondyadic")
+                run_case({"kind": "ref", "cfg": cfg, "x": y, "stratum": "exact_hit_then_zero_then_nondyadic"}, rec)
+            continue
         if r < 9 and i % 600 == r:
             # a long sample (600-2500 draws, bounds up to 10): products that leave the floating-point range
             cfg, desc = nn.gen_long(rng, nn.COMBOS[r])
